@@ -8,6 +8,9 @@ use std::sync::Arc;
 
 pub type Key = (String, u32);
 
+/// the virtual clock starts here (milliseconds); traces carry seconds since then
+pub const CLOCK_BASE: i64 = 1_000_000;
+
 pub fn key_json(k: &Key) -> Value {
     json!([k.0, k.1])
 }
@@ -116,7 +119,7 @@ impl World {
             tokio::task::yield_now().await;
         }
         settle().await;
-        verif::clock_set(1_000_000);
+        verif::clock_set(CLOCK_BASE);
         verif::log_enable(true);
         verif::gate_arm(gated);
         verif::spawn_arm(gated);
@@ -248,8 +251,22 @@ impl World {
                 let prev = t["prev"].as_str().unwrap_or("nil");
                 let data = &t["data"];
                 let flag = |name: &str| data.get(name).and_then(|v| v.as_bool()).unwrap_or(false);
+                let st = t["start_time"].as_i64().unwrap_or(0);
+                let mut tdone: Vec<String> = Vec::new();
+                if let Value::Object(map) = data {
+                    for (k, v) in map {
+                        if let Some(on) = k.strip_prefix("$is_timeout_") {
+                            if v.as_bool() == Some(true) {
+                                tdone.push(on.to_string());
+                            }
+                        }
+                    }
+                }
+                tdone.sort();
                 tasks.push(json!({
                     "k": self.key_of(pid, tid),
+                    "start": if st == 0 { -1 } else { (st - CLOCK_BASE) / 1000 },
+                    "tdone": tdone,
                     "st": t["state"],
                     "prev": if prev == "nil" { nokey() } else { self.key_of(pid, prev) },
                     "seq": i + 1,
@@ -280,7 +297,7 @@ impl World {
             .filter(|(k, _, _)| !k.starts_with("dispatch:"))
             .map(|(k, a, b)| json!({"kind": k, "pid": a, "tid": b}))
             .collect();
-        json!({"procs": procs, "jobs": jobs})
+        json!({"procs": procs, "jobs": jobs, "now": (verif::clock_now() - CLOCK_BASE) / 1000})
     }
 
     /// deliver every parked dispatch in generation order
@@ -404,6 +421,18 @@ impl World {
             "res": if ok { "ok".to_string() } else { format!("err:{}", res.err().unwrap()) }}))
             .await;
         ok
+    }
+
+    /// one tick of the engine's interval task, now
+    pub async fn tick(&mut self) {
+        verif::tick(&self.engine);
+        self.record(json!({"a": "Tick", "pid": "nil", "res": "ok"})).await;
+    }
+
+    /// the virtual clock moves on by `d` seconds
+    pub async fn advance(&mut self, d: i64) {
+        verif::clock_advance(d * 1000);
+        self.record(json!({"a": "Advance", "pid": "nil", "d": d, "res": "ok"})).await;
     }
 
     /// parked tasks of a process, as keys
